@@ -79,7 +79,16 @@ def run_unify(ctx, n):
             ces = [e.clone(subst) for e in es]
             cfs = [f.clone(subst) for f in fs]
         except Exception as ex:  # noqa
-            ctx.fail(f'Axis.unify raised {type(ex).__name__}: {str(ex)[:80]}', case, repr(ex), None, tags=['unify', 'raises'])
+            # tags computed from the input: a one-element factor that is not the unit axis inside a product; a physical axis in several positions
+            def one_el(a):
+                from fggs.indices import ProductAxis, SumAxis
+                if isinstance(a, ProductAxis):
+                    return any((x.numel() == 1) or one_el(x) for x in a.factors)
+                return isinstance(a, SumAxis) and one_el(a.term)
+            occ = [k_ for a in es + fs for k_ in a.fv({})]
+            tags = ['unify', 'raises', type(ex).__name__] + (['one-element-factor'] if any(one_el(a) for a in es + fs) else []) + \
+                (['shared-axis'] if len(set(map(id, occ))) < len(occ) else [])
+            ctx.fail(f'Axis.unify raised {type(ex).__name__}: {str(ex)[:80]}', case, repr(ex), None, tags=tags)
             continue
         nontriv = any(not isinstance(e, PhysicalAxis) for e in es + fs)
         ctx.case(dict(case, ok=ok), ('unify', enc) if nontriv else None, sample_every=400)
